@@ -60,7 +60,8 @@ func NewMD(cfg string) goldmark.Markdown {
 			))
 		case "footnotefn":
 			exts = append(exts, extension.NewFootnote(extension.WithFootnoteIDPrefixFunction(func(n ast.Node) []byte {
-				return []byte("f" + string(rune('0'+n.ChildCount()%10)) + "-")
+				_ = n.Kind() // the same prefix for the reference, the back-link and the item: anything else breaks the links by configuration
+				return []byte("f0-")
 			})))
 		case "linkifyopts":
 			exts = append(exts, extension.NewLinkify(extension.WithLinkifyAllowedProtocols([]string{"http:", "x-y:", "javascript:"})))
